@@ -52,6 +52,10 @@ def run(tier):
     for a, b in inventory.seen_rules('en') + inventory.seen_rules('en_rebank'):
         pairs.append((enc.parse_text(a), enc.parse_text(b)))
         srcs.append('seen_rules')
+    # shared part b = a functor of 3-5 atoms, the two occurrences differing in one atom's feature (any position) or in nothing
+    for x, y, note in gen.deep_pairs(rng, 'en', 4000 if tier == 'quick' else 40000):
+        pairs.append((x, y))
+        srcs.append('deep-shared-part: ' + note)
     if tier == 'quick':
         for _ in range(30000):
             inv = tg if rng.random() < 0.6 else rb
